@@ -249,6 +249,11 @@ fn eval_inner(target: &str, input: &str) -> Option<String> {
                 None => Some(format!("{:?}: xml_id_node(\"{}\") finds nothing", doc, expected)),
             }
         }
+        "tree_ops" => {
+            let f: Vec<&str> = input.split(' ').collect();
+            if f.len() != 5 { return None; }
+            treeops::run(f[0].parse().ok()?, f[1] == "1", f[2], f[3].parse().ok()?, f[4].parse().ok()?)
+        }
         _ => Some(format!("unknown target {}", target)),
     }
 }
@@ -269,7 +274,29 @@ fn inputs(target: &str, large: bool) -> Vec<String> {
             }
             v
         }
+        "tree_ops" => {
+            let mut v = Vec::new();
+            for shape in 0..treeops::shapes() {
+                for cons in ["1", "0"] {
+                    for op in ["append", "insert_after", "insert_before", "detach", "remove"] {
+                        for x in 0..7 {
+                            for y in 0..7 {
+                                if (op == "detach" || op == "remove") && y != 0 { continue; }
+                                v.push(format!("{} {} {} {} {}", shape, cons, op, x, y));
+                            }
+                        }
+                    }
+                }
+            }
+            v
+        }
         "xhtml_ns" => vec!["<h:p xmlns:h=\"http://www.w3.org/1999/xhtml\"><h:br/></h:p>".to_string()],
+        "text_roundtrip_gt" | "cdata_roundtrip" => {
+            // bracket / '>' runs first (the ]]> guard and the CDATA splitter), then the general alphabet
+            let mut v = strings(&[']', '>', 'x'], if large { 7 } else { 6 });
+            v.extend(strings(CRIT, if large { 4 } else { 3 }));
+            v
+        }
         "strip_ws" => strings(&[' ', '\t', '\n', '\r', '\u{a0}', '\u{2003}', 'x'], if large { 4 } else { 3 }),
         "xml_id" => strings(&[' ', 'x', 'y', '\t'], if large { 7 } else { 5 }),
         _ => strings(CRIT, if large { 4 } else { 3 }),
@@ -306,5 +333,156 @@ fn main() {
     } else {
         eprintln!("usage: replay search <target> <small|large> | replay eval <target> <input>");
         std::process::exit(2);
+    }
+}
+
+// =============================================================================================
+// tree operations: an independent ordered-tree reference model (the model of contracts/U9_manip.vc written
+// out executably) run side by side with the real crate on small forests and all (operation, node, node) pairs
+mod treeops {
+    use std::panic;
+    use xot::{Node, Xot};
+
+    #[derive(Clone, Debug, PartialEq)]
+    pub enum Kind { Doc, Elem(&'static str), Text(String), Comment(String), Attr(&'static str, String) }
+
+    #[derive(Clone, Debug)]
+    pub struct M { pub kind: Vec<Kind>, pub parent: Vec<Option<usize>>, pub kids: Vec<Vec<usize>>, pub alive: Vec<bool> }
+
+    impl M {
+        fn is_text(&self, n: usize) -> bool { matches!(self.kind[n], Kind::Text(_)) }
+        fn normal(&self, n: usize) -> bool { !matches!(self.kind[n], Kind::Attr(..)) }
+        fn text(&self, n: usize) -> String { if let Kind::Text(t) = &self.kind[n] { t.clone() } else { String::new() } }
+        fn pos(&self, n: usize) -> usize { let p = self.parent[n].unwrap(); self.kids[p].iter().position(|x| *x == n).unwrap() }
+        fn prev_same(&self, n: usize) -> Option<usize> {
+            let p = self.parent[n]?; let i = self.pos(n); if i == 0 { return None; }
+            let m = self.kids[p][i - 1]; if self.normal(m) == self.normal(n) { Some(m) } else { None } }
+        fn next_same(&self, n: usize) -> Option<usize> {
+            let p = self.parent[n]?; let i = self.pos(n); let m = *self.kids[p].get(i + 1)?;
+            if self.normal(m) == self.normal(n) { Some(m) } else { None } }
+        fn is_anc_or_self(&self, a: usize, mut n: usize) -> bool { loop { if n == a { return true; } match self.parent[n] { Some(p) => n = p, None => return false } } }
+        fn detach_raw(&mut self, n: usize) { if let Some(p) = self.parent[n] { let i = self.pos(n); self.kids[p].remove(i); self.parent[n] = None; } }
+        fn kill(&mut self, n: usize) { self.detach_raw(n); let ks = self.kids[n].clone(); for k in ks { self.parent[k] = None; self.kill(k); } self.kids[n].clear(); self.alive[n] = false; }
+        fn merge(&mut self, a: usize, b: usize) { let t = self.text(a) + &self.text(b); self.kind[a] = Kind::Text(t); self.kill(b); }
+        fn absorb(&mut self, c: usize, b: usize) { let t = self.text(c) + &self.text(b); self.kind[b] = Kind::Text(t); self.kill(c); }
+        fn leave(&mut self, c: usize, cons: bool) {
+            if let (Some(a), Some(b)) = (self.prev_same(c), self.next_same(c)) { if cons && self.is_text(a) && self.is_text(b) { self.merge(a, b); } } }
+        fn may_adopt(&self, p: usize, c: usize) -> bool {
+            matches!(self.kind[p], Kind::Elem(_) | Kind::Doc) && self.normal(c) && self.kind[c] != Kind::Doc && !self.is_anc_or_self(c, p) }
+        fn last_normal(&self, p: usize) -> Option<usize> { let l = *self.kids[p].last()?; if self.normal(l) { Some(l) } else { None } }
+        /// Ok(true) applied, Ok(false) refused (unchanged), Err = outside the proved domain (known finding)
+        pub fn apply(&mut self, op: &str, x: usize, y: usize, cons: bool) -> Result<bool, ()> {
+            match op {
+                "detach" => { let (a, b) = (self.prev_same(x), self.next_same(x)); self.detach_raw(x);
+                    if let (Some(a), Some(b)) = (a, b) { if cons && self.is_text(a) && self.is_text(b) { self.merge(a, b); } } Ok(true) }
+                "remove" => { let (a, b) = (self.prev_same(x), self.next_same(x)); self.kill(x);
+                    if let (Some(a), Some(b)) = (a, b) { if cons && self.is_text(a) && self.is_text(b) { self.merge(a, b); } } Ok(true) }
+                "append" => { let (p, c) = (x, y); if !self.may_adopt(p, c) { return Ok(false); }
+                    self.leave(c, cons);
+                    match self.last_normal(p) { Some(a) if cons && a != c && self.is_text(c) && self.is_text(a) => self.merge(a, c),
+                        _ => { self.detach_raw(c); self.kids[p].push(c); self.parent[c] = Some(p); } }
+                    Ok(true) }
+                "insert_after" | "insert_before" => { let (r, c) = (x, y);
+                    let p = match self.parent[r] { Some(p) => p, None => return Ok(false) };
+                    if !self.normal(r) || r == c || !self.may_adopt(p, c) { return Ok(false); }
+                    // known finding: the reference node is consolidated away
+                    if cons && self.next_same(c) == Some(r) && self.prev_same(c).map(|a| self.is_text(a)).unwrap_or(false) && self.is_text(r) { return Err(()); }
+                    self.leave(c, cons);
+                    let after = op == "insert_after";
+                    let in_place = if after { self.next_same(r) == Some(c) } else { self.prev_same(r) == Some(c) };
+                    if cons && self.is_text(c) && !in_place {
+                        let (a, b) = if after { (Some(r), self.next_same(r)) } else { (self.prev_same(r), Some(r)) };
+                        if let Some(a) = a { if self.is_text(a) { self.merge(a, c); return Ok(true); } }
+                        if let Some(b) = b { if self.is_text(b) { self.absorb(c, b); return Ok(true); } }
+                    }
+                    self.detach_raw(c); let i = self.pos(r) + if after { 1 } else { 0 }; self.kids[p].insert(i, c); self.parent[c] = Some(p);
+                    Ok(true) }
+                _ => Err(()),
+            }
+        }
+    }
+
+    /// build the same forest in the model and in a Xot; `spec` is a small s-expression-like list
+    pub fn build(which: usize, cons: bool) -> (M, Xot, Vec<Node>) {
+        use Kind::*;
+        // (kind, parent index)
+        let shapes: Vec<Vec<(Kind, Option<usize>)>> = vec![
+            vec![(Doc, None), (Elem("a"), Some(0)), (Text("x".into()), Some(1)), (Elem("b"), Some(1)), (Text("y".into()), Some(1)), (Elem("c"), Some(1)), (Text("z".into()), Some(5))],
+            vec![(Doc, None), (Elem("a"), Some(0)), (Attr("p", "1".into()), Some(1)), (Attr("q", "2".into()), Some(1)), (Elem("b"), Some(1)), (Elem("c"), Some(1)), (Comment("k".into()), Some(5))],
+            vec![(Elem("r"), None), (Elem("a"), Some(0)), (Elem("b"), Some(1)), (Elem("c"), Some(2)), (Text("t".into()), Some(0)), (Elem("u"), None), (Text("v".into()), None)],
+            vec![(Doc, None), (Elem("a"), Some(0)), (Text("x".into()), Some(1)), (Elem("b"), Some(1)), (Text("t".into()), Some(3)), (Elem("c"), Some(1)), (Text("y".into()), Some(1))],
+        ];
+        let shape = &shapes[which % shapes.len()];
+        let mut xot = Xot::new();
+        xot.set_text_consolidation(cons);
+        let mut m = M { kind: vec![], parent: vec![], kids: vec![], alive: vec![] };
+        let mut nodes = vec![];
+        for (k, p) in shape {
+            let n = match k {
+                Doc => xot.new_document(),
+                Elem(nm) => { let id = xot.add_name(nm); xot.new_element(id) }
+                Text(t) => xot.new_text(t),
+                Comment(t) => xot.new_comment(t),
+                Attr(nm, v) => { let id = xot.add_name(nm); xot.new_attribute_node(id, v.clone()) }
+            };
+            m.kind.push(k.clone()); m.parent.push(None); m.kids.push(vec![]); m.alive.push(true);
+            let i = nodes.len();
+            nodes.push(n);
+            if let Some(p) = p {
+                xot.any_append(nodes[*p], n).unwrap();
+                m.parent[i] = Some(*p); m.kids[*p].push(i);
+            }
+        }
+        (m, xot, nodes)
+    }
+
+    pub fn shapes() -> usize { 4 }
+
+    fn observe(xot: &Xot, nodes: &[Node]) -> Vec<String> {
+        // one line per handle: liveness, parent, all children (attributes included), value
+        nodes.iter().map(|n| {
+            if xot.is_removed(*n) { return "removed".to_string(); }
+            let idx = |x: Node| nodes.iter().position(|y| *y == x).map(|i| i.to_string()).unwrap_or("?".into());
+            let parent = xot.parent(*n).map(idx).unwrap_or("-".into());
+            let mut kids: Vec<String> = xot.attributes(*n).nodes().map(idx).collect();
+            kids.extend(xot.children(*n).map(idx));
+            format!("p={} k=[{}] v={:?}", parent, kids.join(","), value_str(xot, *n))
+        }).collect()
+    }
+    fn value_str(xot: &Xot, n: Node) -> String {
+        match xot.value(n) { xot::Value::Text(t) => format!("T:{}", t.get()), xot::Value::Comment(c) => format!("C:{}", c.get()),
+            xot::Value::Element(_) => "E".into(), xot::Value::Document => "D".into(), xot::Value::Attribute(a) => format!("A:{}", a.value()), _ => "?".into() }
+    }
+    fn observe_model(m: &M) -> Vec<String> {
+        (0..m.kind.len()).map(|i| {
+            if !m.alive[i] { return "removed".to_string(); }
+            let parent = m.parent[i].map(|p| p.to_string()).unwrap_or("-".into());
+            let kids: Vec<String> = m.kids[i].iter().map(|k| k.to_string()).collect();
+            let v = match &m.kind[i] { Kind::Text(t) => format!("T:{}", t), Kind::Comment(c) => format!("C:{}", c), Kind::Elem(_) => "E".into(), Kind::Doc => "D".into(), Kind::Attr(_, v) => format!("A:{}", v) };
+            format!("p={} k=[{}] v={:?}", parent, kids.join(","), v)
+        }).collect()
+    }
+
+    /// Some(detail) if the real crate deviates from the model for this case
+    pub fn run(which: usize, cons: bool, op: &str, x: usize, y: usize) -> Option<String> {
+        let (mut m, mut xot, nodes) = build(which, cons);
+        if x >= nodes.len() || y >= nodes.len() { return None; }
+        let before = observe(&xot, &nodes);
+        let expected = m.apply(op, x, y, cons);
+        let expected = match expected { Err(()) => return None, Ok(b) => b };
+        let r = panic::catch_unwind(panic::AssertUnwindSafe(|| match op {
+            "detach" => xot.detach(nodes[x]).is_ok(),
+            "remove" => xot.remove(nodes[x]).is_ok(),
+            "append" => xot.append(nodes[x], nodes[y]).is_ok(),
+            "insert_after" => xot.insert_after(nodes[x], nodes[y]).is_ok(),
+            "insert_before" => xot.insert_before(nodes[x], nodes[y]).is_ok(),
+            _ => false,
+        }));
+        let ok = match r { Err(_) => return Some(format!("{}({}, {}) panics", op, x, y)), Ok(ok) => ok };
+        let after = observe(&xot, &nodes);
+        if ok != expected { return Some(format!("{}({}, {}) returned {} but the model {}", op, x, y, if ok { "Ok" } else { "Err" }, if expected { "accepts" } else { "refuses" })); }
+        let want = if expected { observe_model(&m) } else { before };
+        if after != want { return Some(format!("{}({}, {}) [{}]: forest {:?} differs from the model {:?}", op, x, y, if ok { "Ok" } else { "Err" }, after, want)); }
+        None
     }
 }
